@@ -21,6 +21,7 @@ without=$(cargo test --offline --test seed_demo_$V 2>&1 | grep -E "^test result|
 rm -f tests/seed_demo_$V.rs; rmdir tests 2>/dev/null
 echo "suite with change: $suite"; echo "demo with change:    $with"; echo "demo without change: $without"
 # our checks, in the isolated copy
+rsync -a --delete /verif/harness/src/ $ISO/verif/harness/src/; cp /verif/check $ISO/verif/check; rsync -a --delete /verif/replays/ $ISO/verif/replays/; cp /verif/known_findings.json $ISO/verif/
 cd $ISO/repo && git checkout -q -- . && git apply $SRC/patch.diff || { echo "patch does not apply to iso repo"; exit 3; }
 results=""
 for C in $ID $EXTRA; do
